@@ -34,3 +34,9 @@ Global Hint Extern 1 (CrLike _) =>
 (* sanity: the hint finds the instance for the local copy *)
 Lemma CrLike_croute : CrLike croute.
 Proof. typeclasses eauto. Qed.
+
+(* ---- further vocabulary (Readings2 / Readings3) ---- *)
+(* (i, u) starts a memory stage in cycle t *)
+Definition enters_mem (P : proc) (prog : list instr) (d : diagram) (t i : nat) (u : string) : Prop :=
+  (exists l, In (i, l) (occ d t u)) /\ ~ (exists l, In (i, l) (prev_occ d t u))
+  /\ mem_needed P u (cat_of prog i) = true.
